@@ -753,6 +753,7 @@ def extra_C16(tier, seed, scratch, cfg, out):
     from . import model
     hits, nscen, nsteps = [], (420 if tier == "quick" else 3000), 0
     known_hits = []
+    search_left = 0
     req_count, step_count, phantom_count = {}, {}, {}
     for i in range(nscen):
         r = random.Random(seed * 7907 + 16000 + i)
@@ -860,7 +861,7 @@ def extra_C16(tier, seed, scratch, cfg, out):
                 for reason, detail in k2:
                     scen_known.append({"kind": "co", "lines": lines, "finding": dict(detail, reason=reason, schedule=sched)})
                     phantom_count[st["kind"]] = phantom_count.get(st["kind"], 0) + 1
-        if hits:
+        if any(h["kind"] != "no-failing-input-found" for h in hits):
             break
         # --- correspondence with the coroutine model on the same schedule
         try:
@@ -876,11 +877,18 @@ def extra_C16(tier, seed, scratch, cfg, out):
                 hits.append(h)
                 break
             if mism:
-                m = mism[0]
-                hits.append({"kind": "no-failing-input-found", "lines": lines[: m.idx + 1],
-                             "no_longer_checks": ["correspondence slice of C16 (generator sections under a schedule): model and implementation disagree on '%s' (%s)" % (m.line[:60], m.what)],
-                             "disagreement": m.to_json()})
-                break
+                # the tie is broken: keep the first disagreement, and keep looking (for a while) for a schedule on which
+                # the property itself fails on the implementation
+                if not any(h["kind"] == "no-failing-input-found" for h in hits):
+                    m = mism[0]
+                    hits.append({"kind": "no-failing-input-found", "lines": lines[: m.idx + 1],
+                                 "no_longer_checks": ["correspondence slice of C16 (generator sections under a schedule): model and implementation disagree on '%s' (%s)" % (m.line[:60], m.what)],
+                                 "disagreement": m.to_json()})
+                    search_left = 80
+                search_left -= 1
+                if search_left <= 0:
+                    break
+                continue
             known_hits += scen_known
         except Exception as e:  # noqa
             out.notes.append("model driver unavailable for C16: %r" % e)
